@@ -1060,7 +1060,7 @@ def _key_is_constant(ctx, key):
     return False
 
 
-def order_equiv(ctx, t1, t2, variables, pre=None, lo=1):
+def order_equiv(ctx, t1, t2, variables, pre=None, lo=1, lows=None):
     """Are two Boolean terms the same predicate?  Integer quantities `variables` (terms, each a single atom) occur
     only in comparisons with each other and with integer constants, so the finitely many order types over
     {lo .. max constant + 2} decide their part; every other Boolean sub-term (type tests, `is None`, opaque
@@ -1078,19 +1078,22 @@ def order_equiv(ctx, t1, t2, variables, pre=None, lo=1):
     ckey = None
     if pre is None:
         cache = ctx.__dict__.setdefault("_order_equiv_cache", {})
-        ckey = (t1.key(), t2.key(), tuple(ids), lo)
+        ckey = (t1.key(), t2.key(), tuple(ids), lo, tuple(sorted(lows.items())) if lows else None)
         if ckey in cache:
             return cache[ckey]
-    res = _order_equiv(ctx, t1, t2, ids, pre, lo)
+    res = _order_equiv(ctx, t1, t2, ids, pre, lo, lows)
     if ckey is not None and not (res is None and _DEADLINE[0] is not None and time.time() > _DEADLINE[0]):
         cache[ckey] = res
     return res
 
 
-def _order_equiv(ctx, t1, t2, ids, pre, lo):
+def _order_equiv(ctx, t1, t2, ids, pre, lo, lows=None):
+    """lows: {atom id: lower bound} for quantities whose lower bound is not `lo` (an established invariant)"""
     import itertools
     from fractions import Fraction
-    hi = lo + 2
+    lows = lows or {}
+    los = [lows.get(i, lo) for i in ids]
+    hi = max(los + [lo]) + 2
 
     def coeffs(r):
         for p in (r.num, r.den):
@@ -1110,7 +1113,7 @@ def _order_equiv(ctx, t1, t2, ids, pre, lo):
         return None
     # discover the propositional variables
     props = {}
-    probe = {i: Fraction(lo) for i in ids}
+    probe = {i: Fraction(l_) for i, l_ in zip(ids, los)}
     memo = {}
     f1, f2 = _compile_bool(ctx, t1, idset, memo), _compile_bool(ctx, t2, idset, memo)
     for _ in range(64):
@@ -1141,7 +1144,7 @@ def _order_equiv(ctx, t1, t2, ids, pre, lo):
             for j_ in range(i_ + 1, len(lst)):
                 if lst[i_][1] != lst[j_][1]:
                     excl.append((lst[i_][0], lst[j_][0]))
-    for vals in itertools.product(range(lo, hi + 1), repeat=len(ids)):
+    for vals in itertools.product(*[range(l_, hi + 1) for l_ in los]):
         if _DEADLINE[0] is not None and time.time() > _DEADLINE[0]:
             return None       # budget of the caller (the equivalence check) exhausted: not decided
         if pre is not None and not pre(vals):
@@ -1160,17 +1163,17 @@ def _order_equiv(ctx, t1, t2, ids, pre, lo):
     return True
 
 
-def cond_equiv(v, t1, t2, variables=(), pre=None, lo=0):
+def cond_equiv(v, t1, t2, variables=(), pre=None, lo=0, lows=None):
     """normal-form equality, else the finite propositional / order-type decision"""
     if v.eq(t1, t2):
         return True
-    return order_equiv(v.ctx, t1, t2, list(variables), pre=pre, lo=lo) is True
+    return order_equiv(v.ctx, t1, t2, list(variables), pre=pre, lo=lo, lows=lows) is True
 
 
-def cond_implies(v, a, b, variables=(), pre=None, lo=0):
+def cond_implies(v, a, b, variables=(), pre=None, lo=0, lows=None):
     """a -> b as predicates (finite propositional / order-type decision)"""
     t = v.ev._bool("or", [v.ev._not(a), b])
-    return order_equiv(v.ctx, t, v.ctx.mk(("const", True)), list(variables), pre=pre, lo=lo) is True
+    return order_equiv(v.ctx, t, v.ctx.mk(("const", True)), list(variables), pre=pre, lo=lo, lows=lows) is True
 
 
 def if_stmt_of(v, testexpr):
